@@ -130,6 +130,20 @@ fn replay(path: &str) -> i32 {
                 }
             }
         }
+        Some("c01_long") => {
+            let seed = doc["seed"].as_u64().unwrap_or(0);
+            let ops = doc["ops"].as_u64().unwrap_or(0) as usize;
+            match util::catch(|| extra::long_history::<bourse_book::OrderBook<10>>(seed, ops)).unwrap_or_else(|p| Err(format!("panic: {}", p))) {
+                Err(e) => {
+                    println!("REPRODUCED property=C01 {}", e);
+                    1
+                }
+                Ok(_) => {
+                    println!("NOT-REPRODUCED property=C01");
+                    0
+                }
+            }
+        }
         Some("c02_views_only") => {
             let h: ops::History = serde_json::from_value(doc["history"].clone()).expect("history");
             match checks_book::replay_views_only(&h) {
